@@ -2,6 +2,7 @@ package checks
 
 import (
 	"fmt"
+	"go/token"
 	"go/types"
 	"sort"
 	"strings"
@@ -504,6 +505,7 @@ func runC09(c *Ctx) {
 			R.Fatal("E4.no-grow: only %d appends to byte slices found (anchor)", n)
 		}
 	}
+	c.replyOwnHeader()
 	R.Require("E4.alias", 4, "")
 	R.Explain = "May-alias analysis on top of the abstract interpreter's buffer identities: every message the reader role creates (fast path, buffered path, re-request frames, reassembled messages) is checked at creation: its raw bytes, body and BCD phone must not share a backing array " +
 		"(through sub-slicing, bytes.Trim, append's possible in-place growth, joins and loop generalisation) with the Read buffer or with a pending buffer that is truncated and refilled. Plus: no use of a message after it is sent to the writer; identifying header fields are stored only by the decoder. " +
@@ -583,4 +585,135 @@ func (c *Ctx) messagePerFrame(rule string) {
 	if n < 3 {
 		R.Fatal("%s: only %d newTerminalMessage call sites found in service (confirmed by hand: 4)", rule, n)
 	}
+}
+
+// replyOwnHeader: "replies are computed from the bytes of the message they belong to" - in every function of the
+// service package that is handed a *Message and frames bytes with Header.Encode, the header that is encoded is
+// reached from that message (msg.JTMessage.Header, directly, through a copy, or through a helper that is itself handed
+// the message), not from the connection, a package variable or a captured variable.
+func (c *Ctx) replyOwnHeader() {
+	R := c.R
+	rule := "S.reply-own-header"
+	R.Rules[rule] = "in every function of the service package that receives a *Message and frames bytes with Header.Encode, the encoded header is loaded from that message (directly, through a local copy, or through a package helper that is handed the message): a reply carries the phone, version and serial of the message it answers, not those of another message kept in the connection"
+	isMsgParam := func(v ssa.Value) bool {
+		p, ok := v.(*ssa.Parameter)
+		if !ok {
+			return false
+		}
+		t := p.Type()
+		if pt, isP := t.(*types.Pointer); isP {
+			t = pt.Elem()
+		}
+		n, isN := t.(*types.Named)
+		return isN && n.Obj().Name() == "Message" && n.Obj().Pkg() != nil && strings.HasSuffix(n.Obj().Pkg().Path(), "/service")
+	}
+	var trace func(v ssa.Value, seen map[ssa.Value]bool, depth int) string
+	trace = func(v ssa.Value, seen map[ssa.Value]bool, depth int) string {
+		if seen[v] || depth > 12 {
+			return ""
+		}
+		seen[v] = true
+		switch x := v.(type) {
+		case *ssa.Parameter:
+			if isMsgParam(x) {
+				return ""
+			}
+			return fmt.Sprintf("parameter %s (%s) of %s", x.Name(), x.Type(), shortFn(x.Parent()))
+		case *ssa.UnOp:
+			if x.Op == token.MUL {
+				if al, isAl := x.X.(*ssa.Alloc); isAl {
+					return trace(al, seen, depth+1)
+				}
+				if fa, isFA := x.X.(*ssa.FieldAddr); isFA {
+					if why := trace(fa.X, seen, depth+1); why != "" {
+						_, name, _ := fieldNameOfAddr(fa)
+						return "field " + name + " of " + why
+					}
+					return ""
+				}
+				return trace(x.X, seen, depth+1)
+			}
+		case *ssa.FieldAddr:
+			return trace(x.X, seen, depth+1)
+		case *ssa.Phi:
+			for _, e := range x.Edges {
+				if why := trace(e, seen, depth+1); why != "" {
+					return why
+				}
+			}
+			return ""
+		case *ssa.Alloc:
+			n := 0
+			for _, ref := range *x.Referrers() {
+				if st, isSt := ref.(*ssa.Store); isSt && st.Addr == x {
+					n++
+					if why := trace(st.Val, seen, depth+1); why != "" {
+						return why
+					}
+				}
+			}
+			if n == 0 {
+				return "a local that is never assigned from the message"
+			}
+			return ""
+		case *ssa.Call:
+			if sc := x.Call.StaticCallee(); sc != nil && len(sc.Blocks) > 0 && strings.HasSuffix(sc.Pkg.Pkg.Path(), "/service") {
+				for _, b := range sc.Blocks {
+					if ret, isR := b.Instrs[len(b.Instrs)-1].(*ssa.Return); isR {
+						for _, rv := range ret.Results {
+							if _, isPtr := rv.Type().Underlying().(*types.Pointer); !isPtr {
+								continue
+							}
+							if why := trace(rv, seen, depth+1); why != "" {
+								return why + " (returned by " + shortFn(sc) + ")"
+							}
+						}
+					}
+				}
+				return ""
+			}
+			return "the result of " + calleeName(&x.Call)
+		case *ssa.Global:
+			return "package variable " + x.Name()
+		case *ssa.FreeVar:
+			return "captured variable " + x.Name()
+		case *ssa.ChangeType:
+			return trace(x.X, seen, depth+1)
+		}
+		return fmt.Sprintf("%T %s", v, v.Name())
+	}
+	n := 0
+	for _, fn := range c.RepoFuncs("service") {
+		hasMsg := false
+		for _, p := range fn.Params {
+			if isMsgParam(p) {
+				hasMsg = true
+			}
+		}
+		if !hasMsg {
+			continue
+		}
+		for _, b := range fn.Blocks {
+			for _, ins := range b.Instrs {
+				call, isC := ins.(*ssa.Call)
+				if !isC {
+					continue
+				}
+				sc := call.Call.StaticCallee()
+				if sc == nil || sc.Name() != "Encode" || !strings.Contains(sc.String(), "jt808.Header") || len(call.Call.Args) == 0 {
+					continue
+				}
+				n++
+				st, d := report.Discharged, ""
+				if why := trace(call.Call.Args[0], map[ssa.Value]bool{}, 0); why != "" {
+					st, d = report.Violated, "the header encoded here is "+why+", not the header of the message this function was handed: the reply carries another message's phone / version / serial"
+				}
+				R.Add(rule, shortFn(fn)+" / "+c.constructOf(fn, call), c.P.RelPos(call.Pos()), st, d)
+			}
+		}
+	}
+	if n < 2 {
+		R.Fatal("%s: only %d Header.Encode calls in service functions that receive a *Message (confirmed by hand: defaultReplyEvent, subPackReplyEvent)", rule, n)
+	}
+	R.Require(rule, 2, "")
 }
